@@ -297,6 +297,11 @@ impl RunState {
     }
 
     #[inline]
+    pub(super) fn orig(&self) -> u16 {
+        self.orig
+    }
+
+    #[inline]
     pub(super) fn flag(&self) -> RunFlag {
         self.flag
     }
